@@ -100,7 +100,7 @@ COMPONENTS = {
         'fsic.core.interfaces.ModelInterface/SolverMixin',
         'fsic.core.models.BaseModel',
         'fsic.core.linkers.BaseLinker',
-        'fsic.extensions (AliasMixin, TracerMixin, PandasIndexFeaturesMixin)',
+        'fsic.extensions (AliasMixin, TracerMixin, PandasIndexFeaturesMixin, ProgressBarMixin)',
         'fsic.parser (parse_model/build_model for workload models)',
         'numpy',
         'pandas (span types, to_dataframe)',
@@ -108,6 +108,8 @@ COMPONENTS = {
     'stub': [
         'scripted _evaluate / solve_t_before / solve_t_after (plan-driven, used where a fault must land at an exact pass)',
         'scripted linker hooks',
+        'tqdm (not installed): a stand-in class with __iter__ / __len__ so that ProgressBarMixin(progress_bar=True) runs',
+        'scripted callbacks (user code calling back into the library from hooks and passes)',
     ],
     'never_run': ['fsic.fortran engine (needs f2py/Meson; not available)'],
 }
